@@ -1,0 +1,20 @@
+//go:build verif
+
+package shrex_getter //nolint:stylecheck // underscore in pkg name will be fixed with shrex refactoring
+
+import "time"
+
+// This file exists only under the `verif` build tag. It lets the runtime-verification harness
+// shorten the per-peer request timeout of a real Getter (the package's own tests set the same
+// unexported fields directly); it adds no behaviour of its own.
+
+// VerifSetRequestTiming overrides the minimal per-peer request timeout and the number of attempts
+// the caller's deadline is split into. Values <= 0 keep the current setting.
+func (sg *Getter) VerifSetRequestTiming(minRequestTimeout time.Duration, minAttemptsCount int) {
+	if minRequestTimeout > 0 {
+		sg.minRequestTimeout = minRequestTimeout
+	}
+	if minAttemptsCount > 0 {
+		sg.minAttemptsCount = minAttemptsCount
+	}
+}
